@@ -17,6 +17,7 @@ RULE = ("operation sequences over a small key universe {a,b,c,A,Ab,ab} on odict,
         "<=4 thorough) and over the full alphabet (length<=2) - identical for every seed; (2) seeded random "
         "sequences of 4..40 operations from the full generator.  distinct = distinct (container, operation list); "
         "non-trivial = at least two operations of which at least one changed the container")
+RULE = __import__("vf.core", fromlist=["rule_add"]).rule_add(RULE, 'also pickle round trips at every protocol (0..5), pops whose default is the stored value itself')
 META = {"engine": "B history",
         "technique": "runtime monitoring: real container and executable reference model stepped together, "
                      "return value / rejection / full state compared after every operation",
